@@ -319,7 +319,9 @@ pub fn run(cfg: &Cfg) -> Outcome {
         acc.sample(json!({"expr": items[i].text, "instants": instant_alphabet().len()}));
     }
     let skipped = acc.get("long_windows_skipped_after_budget") + acc.get("long_horizon_instants_skipped_after_budget");
+    let tz_cov = crate::props::tzshape::run(crate::props::tzshape::Which::C08, cfg.quick(), &mut acc);
     let mut o = Outcome::new("model_checking", acc);
+    o.cov("time_zone_contexts", tz_cov);
     o.exhaustive = true;
     if skipped > 0 {
         o.caps_hit.push(format!("{skipped} long windows / long-horizon queries were skipped after the per-expression schedule_at budget (windows of at most 3 days inside the supported range are never skipped)"));
@@ -332,6 +334,9 @@ pub fn run(cfg: &Cfg) -> Outcome {
 }
 
 pub fn replay(cfg: &Cfg, case: &Value) -> Vec<Violation> {
+    if crate::props::tzshape::is_case(case) {
+        return crate::props::tzshape::replay(crate::props::tzshape::Which::C08, case);
+    }
     let mut acc = Acc::new();
     let Some(text) = case.get("expr").and_then(|v| v.as_str()) else { return vec![] };
     let c = ctx::by_name(&cfg.repo, case.get("ctx").and_then(|v| v.as_str()).unwrap_or("empty"));
